@@ -28,6 +28,8 @@ func main() {
 		famC05(g, o, *n, *thorough)
 	case "c14":
 		famC14(g, o, *n, *thorough)
+	case "c12":
+		famC12(g, o, *n, *thorough)
 	case "c04":
 		famC04(g, o, *n, *thorough)
 	case "c03":
